@@ -537,23 +537,10 @@ func (u *Unit) execAssign(st *State, x *ast.AssignStmt) {
 			u.reject("unsupported assignment operator %s", x.Tok)
 			return
 		}
-		be := &ast.BinaryExpr{X: x.Lhs[0], Op: op, Y: x.Rhs[0], OpPos: x.TokPos}
-		// evaluate without type info for the synthetic node: do it by hand
 		a := u.eval(st, x.Lhs[0])
 		b := u.eval(st, x.Rhs[0])
-		if (op == token.QUO || op == token.REM) && a.Sort == SInt {
-			u.oblige(st, "div", exprStr(u.eng.fset, be), tNot(tEq(b.S, "0")), x.Pos())
-		}
-		r := u.binop(nil, op, a, b)
-		if r.Sort == "?" {
-			u.note("abstracted", "operator in "+exprStr(u.eng.fset, x))
-			r = u.freshVal("binop", a.T)
-			st.assume(u.typeAssume(r))
-		}
+		r := u.arith(st, op, a, b, a.T, x)
 		r.T = a.T
-		if bt, isB := a.T.Underlying().(*types.Basic); isB && bt.Info()&types.IsInteger != 0 && bt.Kind() != types.Int && bt.Kind() != types.Int64 {
-			r = u.convertIntForce(r, a.T)
-		}
 		u.assign(st, x.Lhs[0], r)
 		return
 	}
@@ -634,7 +621,7 @@ func (u *Unit) assign(st *State, lhs ast.Expr, v Val) {
 		ref := base.S
 		for k, i := range idx {
 			if p, ok := cur.Underlying().(*types.Pointer); ok {
-				u.oblige(st, "nil", exprStr(u.eng.fset, x), tNot(tEq(ref, "0")), x.Pos())
+				u.nilOblige(st, exprStr(u.eng.fset, x), ref, x.Pos())
 				cur = p.Elem()
 			}
 			f := structOf(cur).Field(i)
@@ -679,7 +666,7 @@ func (u *Unit) assign(st *State, lhs ast.Expr, v Val) {
 	case *ast.StarExpr:
 		p := u.eval(st, x.X)
 		pt := p.T.Underlying().(*types.Pointer)
-		u.oblige(st, "nil", exprStr(u.eng.fset, x), tNot(tEq(p.S, "0")), x.Pos())
+		u.nilOblige(st, exprStr(u.eng.fset, x), p.S, x.Pos())
 		if isStructVal(pt.Elem()) {
 			u.copyStruct(st, pt.Elem(), p.S, v.S)
 			return
